@@ -1,6 +1,8 @@
 import UralModel.Model.Normalize
 import UralModel.Lemmas.Str
 import UralModel.Lemmas.Redirect
+import UralModel.Lemmas.StrSplit
+import UralModel.Lemmas.QuoteIdem
 /-!
 # Lemmas about the model of `normalize_url` — deletion relations and the hostname
 
@@ -10,7 +12,7 @@ import UralModel.Lemmas.Redirect
   `subdomainSub_labels`.
 -/
 namespace Ural.Normalize
-open Ural Ural.Py Ural.UrlParts
+open Ural Ural.Py Ural.UrlParts Ural.Quote Ural.Canonicalize
 
 /-! ## deletion of elements satisfying a predicate -/
 
@@ -107,6 +109,9 @@ instance {α : Type} [DecidableEq α] (p : α → Bool) (xs ys : List α) :
 
 /-- `s` is, ignoring case (`re.I`), the literal `pat` -/
 def ciEq (pat : String) (s : Str) : Bool := matchLit pat.toList s == some []
+
+theorem ciEq_of {pat : String} {w : Str} (h : matchLit pat.toList w = some []) : ciEq pat w = true := by
+  unfold ciEq; rw [h]; simp
 
 theorem matchLit_split (pat : List Char) (s r : Str) (h : matchLit pat s = some r) :
     ∃ pre, s = pre ++ r ∧ pre.length = pat.length ∧ matchLit pat pre = some [] ∧
@@ -341,5 +346,278 @@ theorem subdomainSub_labels (amp : Bool) (h : Str) :
               simp
           rw [hout, h1, splitOn_append_sep _ _ _ h2, splitOn_append_sep _ _ _ h2]
           exact .keep a (ih _ hlen t rfl)
+
+/-! ## query items -/
+
+theorem insertItem_perm (x : QItem) (ys : List QItem) : (insertItem x ys).Perm (x :: ys) := by
+  induction ys with
+  | nil => exact List.Perm.refl _
+  | cons y ys ih =>
+    simp only [insertItem]
+    by_cases h : qslLe x y = true
+    · simp only [h, if_true]; exact List.Perm.refl _
+    · simp only [h]
+      exact (List.Perm.cons y ih).trans (List.Perm.swap x y ys)
+
+/-- sorting only permutes -/
+theorem sortQsl_perm (xs : List QItem) : (sortQsl xs).Perm xs := by
+  induction xs with
+  | nil => exact List.Perm.refl _
+  | cons x xs ih => exact (insertItem_perm x (sortQsl xs)).trans (List.Perm.cons x ih)
+
+/-- unquoting twice is unquoting once (C14 / C02) -/
+theorem safelyUnquote_idem' (U : List UInt8) (hU : (0x25 : UInt8) ∈ U) (hA : AsciiSet U) (s : Str) :
+    safelyUnquote U (safelyUnquote U s) = safelyUnquote U s := by
+  have hout := outTok_unquoteToks U (tokens s) (wf_tokens s)
+  have h : tokens (safelyUnquote U s) = unquoteToks U (tokens s) :=
+    tokens_render_of_canon _ (fun t ht => canon_of_outTok hU (wf_tokens s) (hout t ht))
+  unfold safelyUnquote at h ⊢
+  rw [h, unquoteToks_idem U hU hA]
+
+theorem unquoteQueryItem_idem (s : Str) : unquoteQueryItem (unquoteQueryItem s) = unquoteQueryItem s :=
+  safelyUnquote_idem' _ (by decide) (by unfold AsciiSet; decide) s
+
+theorem unquotePath_idem (s : Str) : unquotePath (unquotePath s) = unquotePath s :=
+  safelyUnquote_idem' _ (by decide) (by unfold AsciiSet; decide) s
+
+theorem unquoteFragment_idem (s : Str) : unquoteFragment (unquoteFragment s) = unquoteFragment s :=
+  safelyUnquote_idem' _ (by decide) (by unfold AsciiSet; decide) s
+
+theorem unquoteQsl_idem (q : List QItem) : unquoteQsl (unquoteQsl q) = unquoteQsl q := by
+  simp only [unquoteQsl, List.map_map]
+  apply List.map_congr_left
+  rintro ⟨k, v⟩ _
+  cases v <;> simp [unquoteQueryItem_idem]
+
+/-- an item of an unquoted list is its own unquoted form -/
+theorem unquoteQsl_fixed {q l : List QItem} (h : ∀ it ∈ l, it ∈ unquoteQsl q) : unquoteQsl l = l := by
+  have key : ∀ it ∈ unquoteQsl q, (unquoteQueryItem it.1, it.2.map unquoteQueryItem) = it := by
+    intro it hit
+    simp only [unquoteQsl, List.mem_map] at hit
+    obtain ⟨⟨k, v⟩, _, rfl⟩ := hit
+    cases v <;> simp [unquoteQueryItem_idem]
+  induction l with
+  | nil => rfl
+  | cons a l ih =>
+    have ha := key a (h a (List.mem_cons_self ..))
+    have := ih (fun it hit => h it (List.mem_cons_of_mem _ hit))
+    simp only [unquoteQsl, List.map_cons] at this ⊢
+    rw [this]
+    obtain ⟨k, v⟩ := a
+    simp only at ha ⊢
+    rw [ha]
+
+/-! ## prefixes -/
+
+theorem startsWith_eq_append {s p : Str} (h : startsWith s p = true) : s = p ++ s.drop p.length := by
+  unfold startsWith at h
+  rw [List.isPrefixOf_iff_prefix] at h
+  exact (List.prefix_iff_eq_append.mp h).symm
+
+/-- `rstrip(chars)` cuts a (possibly empty) run of those characters from the end -/
+theorem rstripChars_spec (p : Str) (cs : List Char) :
+    ∃ t, p = rstripChars p cs ++ t ∧ ∀ c ∈ t, c ∈ cs := by
+  refine ⟨(p.reverse.takeWhile (cs.contains ·)).reverse, ?_, ?_⟩
+  · unfold rstripChars
+    rw [← List.reverse_append, List.takeWhile_append_dropWhile, List.reverse_reverse]
+  · intro c hc
+    rw [List.mem_reverse] at hc
+    have := mem_takeWhile_pos _ _ _ hc
+    simpa using this
+
+theorem dropWhile_head_false {α : Type} (p : α → Bool) (l : List α) (x : α) (a : List α)
+    (h : l.dropWhile p = x :: a) : p x = false := by
+  induction l with
+  | nil => simp at h
+  | cons y ys ih =>
+    simp only [List.dropWhile_cons] at h
+    cases hp : p y with
+    | true => simp only [hp, if_true] at h; exact ih h
+    | false =>
+      simp only [hp] at h
+      simp only [Bool.false_eq_true, if_false, List.cons.injEq] at h
+      rw [← h.1]; exact hp
+
+/-- `rsplit(sep, 1)` -/
+theorem splitLast_spec (s : Str) (sep : Char) :
+    (∃ a b, splitLast s sep = (some a, b) ∧ s = a ++ sep :: b ∧ sep ∉ b) ∨
+    (splitLast s sep = (none, s) ∧ sep ∉ s) := by
+  have hnm := splitLast_snd_not_mem s sep
+  have hsplit := List.takeWhile_append_dropWhile (p := fun x => decide (x ≠ sep)) (l := s.reverse)
+  unfold splitLast at *
+  rw [span_eq] at *
+  cases hd : List.dropWhile (fun x => decide (x ≠ sep)) s.reverse with
+  | nil =>
+    right
+    simp only [hd] at hnm hsplit ⊢
+    have hs : (List.takeWhile (fun x => decide (x ≠ sep)) s.reverse).reverse = s := by
+      calc _ = (List.takeWhile (fun x => decide (x ≠ sep)) s.reverse ++ []).reverse := by simp
+        _ = s.reverse.reverse := by rw [hsplit]
+        _ = s := by simp
+    rw [hs] at hnm ⊢
+    exact ⟨rfl, hnm⟩
+  | cons x a =>
+    left
+    simp only [hd] at hnm hsplit ⊢
+    have hx : x = sep := by
+      have := dropWhile_head_false _ _ _ _ hd
+      simpa using this
+    subst hx
+    refine ⟨a.reverse, _, rfl, ?_, hnm⟩
+    calc s = s.reverse.reverse := by simp
+      _ = (List.takeWhile (fun y => decide (y ≠ x)) s.reverse ++ x :: a).reverse := by rw [hsplit]
+      _ = _ := by simp
+
+/-! ## the path -/
+
+/-- is the previous character a slash once `m` has been read (`b` before it) -/
+def lastSlash : Bool → Str → Bool
+  | b, [] => b
+  | _, c :: cs => lastSlash (c == '/') cs
+
+/-- `$`-end, or (for `.amp` alone) `.html` followed by the `$`-end -/
+def htmlTail (e : Str) : Bool := ((matchLit ".html".toList e).map atDollar).getD false
+
+/-- `m`, found where `e` is what remains after it, is an AMP marker at the end of the path:
+`.amp` or, after a slash, `amp` — ignoring case — with an optional slash, followed by the end
+of the path (`.amp` alone may also be followed by `.html` and the end) -/
+def IsAmpCut (prevSlash : Bool) (m e : Str) : Prop :=
+  ∃ w sl, m = w ++ sl ∧ (sl = [] ∨ sl = ['/']) ∧
+    ((ciEq ".amp" w = true ∧ (atDollar e = true ∨ (sl = [] ∧ htmlTail e = true))) ∨
+     (prevSlash = true ∧ ciEq "amp" w = true ∧ atDollar e = true))
+
+/-- `t` is `s` minus AMP markers standing at its end -/
+inductive AmpDel : Bool → Str → Str → Prop
+  | nil (b : Bool) : AmpDel b [] []
+  | keep (b : Bool) (c : Char) {s t : Str} : AmpDel (c == '/') s t → AmpDel b (c :: s) (c :: t)
+  | cut (b : Bool) (m : Str) {e t : Str} : m ≠ [] → IsAmpCut b m e → AmpDel (lastSlash b m) e t →
+      AmpDel b (m ++ e) t
+
+theorem AmpDel.sublist {b : Bool} {s t : Str} (h : AmpDel b s t) : t.Sublist s := by
+  induction h with
+  | nil => exact .slnil
+  | keep _ c _ ih => exact ih.cons_cons c
+  | cut _ m _ _ _ ih => exact ih.trans (List.sublist_append_right m _)
+
+theorem AmpDel.refl (b : Bool) (s : Str) : AmpDel b s s := by
+  induction s generalizing b with
+  | nil => exact .nil b
+  | cons c cs ih => exact .keep b c (ih _)
+
+theorem ampEnd_spec {r e : Str} (h : ampEnd r = some e) :
+    ∃ sl, r = sl ++ e ∧ (sl = [] ∨ sl = ['/']) ∧ atDollar e = true := by
+  unfold ampEnd at h
+  have tailcase : (if atDollar r = true then some r else none) = some e →
+      ∃ sl, r = sl ++ e ∧ (sl = [] ∨ sl = ['/']) ∧ atDollar e = true := by
+    intro h
+    cases hd : atDollar r with
+    | false => simp [hd] at h
+    | true =>
+      simp only [hd, if_true, Option.some.injEq] at h
+      subst h; exact ⟨[], rfl, Or.inl rfl, hd⟩
+  cases ha : afterChar '/' r with
+  | none => simp only [ha] at h; exact tailcase h
+  | some e' =>
+    simp only [ha] at h
+    rw [afterChar_eq_some] at ha
+    cases hd' : atDollar e' with
+    | true =>
+      simp only [hd', if_true, Option.some.injEq] at h
+      subst h; exact ⟨['/'], by simp [ha], Or.inr rfl, hd'⟩
+    | false =>
+      simp only [hd', Bool.false_eq_true, if_false] at h
+      exact tailcase h
+
+theorem ampSuffixHere_spec {prev : Bool} {s e : Str} (h : ampSuffixHere prev s = some e) :
+    ∃ m, s = m ++ e ∧ m ≠ [] ∧ IsAmpCut prev m e := by
+  unfold ampSuffixHere at h
+  simp only [Option.or_eq_some_iff] at h
+  rcases h with h | ⟨_, h⟩
+  · obtain ⟨r, hm, hr⟩ := Option.bind_eq_some_iff.mp h
+    obtain ⟨w, h1, hlen, h3, _⟩ := matchLit_split _ _ _ hm
+    have hw : w ≠ [] := by intro e; subst e; simp at hlen
+    by_cases hh : ((matchLit ".html".toList r).map atDollar).getD false = true
+    · simp only [hh, if_true, Option.some.injEq] at hr
+      subst hr
+      exact ⟨w, h1, hw, w, [], by simp, Or.inl rfl, Or.inl ⟨ciEq_of h3, Or.inr ⟨rfl, hh⟩⟩⟩
+    · simp only [hh] at hr
+      obtain ⟨sl, h2, hsl, hd⟩ := ampEnd_spec hr
+      exact ⟨w ++ sl, by simp [h1, h2], by simp [hw], w, sl, rfl, hsl, Or.inl ⟨ciEq_of h3, Or.inl hd⟩⟩
+  · cases prev with
+    | false => simp at h
+    | true =>
+      simp only [if_true] at h
+      obtain ⟨r, hm, hr⟩ := Option.bind_eq_some_iff.mp h
+      obtain ⟨w, h1, hlen, h3, _⟩ := matchLit_split _ _ _ hm
+      have hw : w ≠ [] := by intro e; subst e; simp at hlen
+      obtain ⟨sl, h2, hsl, hd⟩ := ampEnd_spec hr
+      exact ⟨w ++ sl, by simp [h1, h2], by simp [hw], w, sl, rfl, hsl, Or.inr ⟨rfl, ciEq_of h3, hd⟩⟩
+
+theorem ampSuffixSubFrom_skip (xs r : Str) (b : Bool) :
+    ampSuffixSubFrom (xs ++ r) b xs.length = ampSuffixSubFrom r (lastSlash b xs) 0 := by
+  induction xs generalizing b with
+  | nil => simp [lastSlash]
+  | cons x xs ih =>
+    simp only [List.cons_append, List.length_cons, ampSuffixSubFrom, lastSlash]
+    exact ih (x == '/')
+
+/-- **`AMP_SUFFIXES_RE.sub` removes AMP markers at the end of the path only** -/
+theorem ampSuffixSubFrom_del (s : Str) (prev : Bool) : AmpDel prev s (ampSuffixSubFrom s prev 0) := by
+  generalize hn : s.length = n
+  induction n using Nat.strongRecOn generalizing s prev with
+  | _ n ih =>
+    cases s with
+    | nil => simp [ampSuffixSubFrom]; exact .nil prev
+    | cons c cs =>
+      cases hm : ampSuffixHere prev (c :: cs) with
+      | none =>
+        have : ampSuffixSubFrom (c :: cs) prev 0 = c :: ampSuffixSubFrom cs (c == '/') 0 := by
+          simp [ampSuffixSubFrom, hm]
+        rw [this]
+        exact .keep prev c (ih _ (by rw [← hn]; simp) cs _ rfl)
+      | some e =>
+        obtain ⟨m, h1, hne, hcut⟩ := ampSuffixHere_spec hm
+        cases m with
+        | nil => exact absurd rfl hne
+        | cons x xs =>
+          simp only [List.cons_append, List.cons.injEq] at h1
+          obtain ⟨rfl, rfl⟩ := h1
+          have hk : (c :: (xs ++ e)).length - e.length - 1 = xs.length := by simp; omega
+          have : ampSuffixSubFrom (c :: (xs ++ e)) prev 0 = ampSuffixSubFrom e (lastSlash prev (c :: xs)) 0 := by
+            simp only [ampSuffixSubFrom, hm, hk, lastSlash]
+            exact ampSuffixSubFrom_skip xs e (c == '/')
+          rw [this]
+          have hlen : e.length < n := by rw [← hn]; simp; omega
+          exact .cut prev (c :: xs) hne hcut (ih _ hlen e _ rfl)
+
+theorem ampSuffixSub_del (p : Str) : AmpDel false p (ampSuffixSub p) := ampSuffixSubFrom_del p false
+
+/-- the last segment is an index page: its `splitext` root is `index` or `default` -/
+def isIndexFile (last : Str) : Bool :=
+  splitextRoot last == "index".toList || splitextRoot last == "default".toList
+
+/-- `p'` is `p` without its last segment, which is an index page (the slash before it goes
+too) -/
+def IndexCut (p p' : Str) : Prop :=
+  ∃ last, '/' ∉ last ∧ isIndexFile last = true ∧ ((p = p' ++ '/' :: last) ∨ (p = last ∧ p' = []))
+
+theorem stripIndex_spec (p : Str) : stripIndex p = p ∨ IndexCut p (stripIndex p) := by
+  unfold stripIndex
+  by_cases h : splitextRoot (splitLast p '/').2 = "index".toList ∨ splitextRoot (splitLast p '/').2 = "default".toList
+  · right
+    simp only [h, if_true]
+    have hidx : isIndexFile (splitLast p '/').2 = true := by
+      simp only [isIndexFile, Bool.or_eq_true, beq_iff_eq]; exact h
+    rcases splitLast_spec p '/' with ⟨a, b, h1, h2, h3⟩ | ⟨h1, h2⟩
+    · rw [h1] at hidx ⊢
+      exact ⟨b, h3, hidx, Or.inl (by simpa using h2)⟩
+    · rw [h1] at hidx ⊢
+      exact ⟨p, h2, hidx, Or.inr ⟨rfl, rfl⟩⟩
+  · left; simp only [h, if_false]
+
+theorem IndexCut.prefix {p p' : Str} (h : IndexCut p p') : p' <+: p := by
+  obtain ⟨last, _, _, h | ⟨_, h⟩⟩ := h
+  · exact ⟨_, h.symm⟩
+  · subst h; exact List.nil_prefix
 
 end Ural.Normalize
